@@ -139,6 +139,9 @@ func c18ZeroBiasX(r *gen.Rng, s *tree.SNode, c *tree.Cont, keysToo bool) {
 	for i, kid := range s.Kids {
 		switch kid.Kind {
 		case tree.KLeaf:
+			if v, ok := c.Leaves[kid.Name]; ok && isKey[i] && v == val.String("") {
+				c.Leaves[kid.Name] = val.String("z")
+			}
 			if v, ok := c.Leaves[kid.Name]; ok && (keysToo || !isKey[i]) && r.Chance(1, 3) {
 				switch v.(type) {
 				case val.Int32:
